@@ -15,7 +15,7 @@ Definition gen_bad_bindings : list bytes :=
 Definition gen_bad_muxes : list bytes :=
   map (fun m => snd m) (List.filter (fun m => negb (mux_ok m)) Gen.Routes.muxes).
 Definition gen_bad_servers : list bytes :=
-  map (fun s => snd (fst s)) (List.filter (fun s => negb (server_ok s)) Gen.Routes.servers).
+  map (fun s => snd (fst (fst s))) (List.filter (fun s => negb (server_ok s)) Gen.Routes.servers).
 
 Lemma all_routes_ok : gen_table_ok = true.
 Proof. vm_compute. reflexivity. Qed.
